@@ -291,7 +291,9 @@ func runC25(c *core.Ctx, s *Scenario) {
 	st.w.SetSeq(0, start)
 	st.r.SetSeq(start, 0)
 	mon := wiremon.New()
-	mon.Fail = func(oracle, msg string) { c.Violate(prop, oracle, "[%s %s kexhash %s] %s", s.Cipher, s.MAC, s.Hash, msg) }
+	mon.Fail = func(oracle, msg string) {
+		c.Violate(prop, oracle, "[%s %s kexhash %s] %s", s.Cipher, s.MAC, s.Hash, msg)
+	}
 	mon.SkipVersion(d)
 	mon.SetSeq(d, start)
 	mon.SetKeys(d, s.Cipher, s.MAC, wiremon.KexResult{K: st.k, H: st.h, Hash: st.hash}, st.id, false)
